@@ -54,6 +54,7 @@ pub fn run(ctx: &Ctx) -> Outcome {
         run_and_report(ctx, &mtu(ctx.tier, 700, Some(600), None, 1, ctx.tier.pick(6, 8)), &mut out);
         run_and_report(ctx, &mtu(ctx.tier, 700, None, Some(620), 1, ctx.tier.pick(6, 8)), &mut out);
         run_and_report(ctx, &rx(ctx.tier, 4, vec![MSS, 1], ctx.tier.pick(6, 8)), &mut out);
+        run_and_report(ctx, &rx_vectored(ctx.tier, ctx.tier.pick(6, 8)), &mut out);
         // reader, writer and connection on different threads: what poll_read returns under every
         // interleaving of their critical sections
         use crate::solo::threads::*;
@@ -109,9 +110,16 @@ pub fn mtu_family(ctx: &Ctx) -> Outcome {
             (900, Some(599), None, false),
             (1500, None, None, true),
             (1400, Some(1320), None, true),
+            // jumbo links: the first probe sizes exceed the initial congestion window
+            (9000, None, None, false),
+            (4000, Some(3000), None, false),
+            (9000, Some(5000), None, true),
         ],
         Tier::Thorough => {
             let mut g = vec![];
+            for (lm, bh, v6) in [(4000usize, None, false), (4000, Some(3000usize), false), (9000, None, false), (9000, Some(5000), true), (9000, Some(1600), false), (65_000, None, false), (65_000, Some(9000), true)] {
+                g.push((lm, bh, None, v6));
+            }
             for (lm, v6) in [(600usize, false), (700, false), (1500, false), (1500, true), (1340, true)] {
                 g.push((lm, None, None, v6));
                 let lo = if v6 { 1253 } else { 549 };
@@ -128,7 +136,16 @@ pub fn mtu_family(ctx: &Ctx) -> Outcome {
     };
     let mut scns: Vec<(Scenario, Vec<crate::duo::sim::Fate>)> = vec![];
     for (lm, bh, em, v6) in grid {
-        scns.push((lib::mtu_transfer(lm, bh, em, 60_000, v6), vec![crate::duo::sim::Fate::Drop]));
+        let bytes = if lm > 2000 { 80 * lm } else { 60_000 };
+        let mut scn = lib::mtu_transfer(lm, bh, em, bytes, v6);
+        if lm > 2000 {
+            for c in [&mut scn.a, &mut scn.b] {
+                c.rx_buf = 1 << 20;
+                c.tx_init = 1 << 18;
+                c.tx_max = 1 << 20;
+            }
+        }
+        scns.push((scn, vec![crate::duo::sim::Fate::Drop]));
     }
     // probes that are delivered but acknowledged late (delay past the RTO) with and without probe retransmissions
     for retx in [0usize, 1] {
